@@ -127,7 +127,7 @@ def wa_case(draw):
     else:
         comp = [-1.0] * n
     w = [draw(st.integers(1, 64)) / 16 for _ in range(n)]      # durations of real intervals are strictly positive
-    return {"comp": comp, "w": w, "scale": draw(st.sampled_from([0.5, 3.0, 1e-3, 1000.0, 7.0]))}
+    return {"comp": comp, "w": w, "scale": draw(st.sampled_from([0.5, 3.0, 1e-3, 1000.0, 7.0, 1e-10, 2.0 ** -40, 1e9]))}     # also a time axis in tiny / huge units
 
 
 def pred_wa(case, ctx):
